@@ -46,7 +46,7 @@ DefaultHd == [reads |-> <<>>, frames |-> <<>>, comp |-> "", status |-> 200, ct |
               exit |-> "return", fault |-> "", noread |-> FALSE, ignore |-> FALSE]
 DefaultCl == [form |-> "grpc", method |-> "Post", codec |-> "proto", comp |-> "", accept |-> <<>>, major |-> 0,
               http |-> "", frames |-> <<>>, cut |-> "", clen |-> "", hdrs |-> <<>>, timeout |-> "", chunks |-> <<>>,
-              path |-> "", ct |-> "", extra |-> <<>>, b64 |-> "", noflush |-> FALSE, rej |-> ""]
+              path |-> "", ct |-> "", extra |-> <<>>, b64 |-> "", noflush |-> FALSE, rej |-> "", getdelta |-> ""]
 DefaultCfg == [protos |-> <<"connect", "grpc", "grpcweb">>, codecs |-> <<"proto", "json">>, comps |-> <<"gzip">>,
                L |-> 0, maxget |-> 0, unknown |-> FALSE, schema |-> ""]
 
@@ -79,19 +79,21 @@ ChooseCfg ==
     /\ UNCHANGED m
 
 \* a REST client of this family can only call methods whose rule carries the whole message in the body
-RestCallable(method) == method = "Post"
+RestCallable(method) == method = "Post" \/ (Mode = "get" /\ method = "Query")
 
 ChooseClient ==
     /\ ph = "client"
     /\ \E f \in ClientForms, c \in ClientCodecs, z \in ClientComps, meth \in Methods :
          /\ FormCarries(f, MethodInfo(meth).stream)
          /\ f = "rest" => (c = "json" /\ RestCallable(meth))
-         /\ f = "connect_get" => MethodInfo(meth).nse
+         /\ f = "connect_get" => (MethodInfo(meth).nse \/ Mode = "get")
          \* a REST target needs a rule for the method, with the whole message in the body
          /\ SrvProto(scn.cfg, ProtoOf(f)) = "rest" => RestCallable(meth)
          /\ scn' = [scn EXCEPT !.cl.form = f, !.cl.codec = c, !.cl.comp = z, !.cl.method = meth,
                                !.cl.major = MajorFor(f, meth),
-                               !.cl.accept = IF z = "" THEN <<>> ELSE <<z>>]
+                               !.cl.accept = IF z = "" THEN <<>> ELSE <<z>>,
+                               \* a Connect GET for a method with side effects must be refused (C19)
+                               !.cl.rej = IF f = "connect_get" /\ ~MethodInfo(meth).nse THEN "rpc-get-notnse" ELSE ""]
     /\ ph' = "reqframes"
     /\ UNCHANGED m
 
@@ -200,7 +202,7 @@ ChooseHandler ==
                                    !.hd.end = [DefaultEnd EXCEPT !.code = code, !.how = how, !.msg = mc, !.details = nd]]
     /\ ph' = CASE Mode = "faults" -> "handlerfault" [] Mode = "headers" -> "resphdrs"
                [] Mode = "errors" -> "barehttp" [] Mode = "hostile" -> "hostile"
-               [] Mode = "chunks" -> "chunks" [] OTHER -> "run"
+               [] Mode = "chunks" -> "chunks" [] Mode = "get" -> "getopts" [] OTHER -> "run"
     /\ UNCHANGED m
 
 \* errors mode: alternatively the backend fails with a bare HTTP status
@@ -279,6 +281,15 @@ ChooseChunks ==
     /\ ph' = "run"
     /\ UNCHANGED m
 
+\* get mode (C19): query-string encoding of the client's GET and the URL-length limit placed
+\* exactly at, just below and just above the URL the transcoder would issue
+ChooseGetOpts ==
+    /\ ph = "getopts"
+    /\ \E b \in (IF scn.cl.form = "connect_get" THEN {"", "1", "pad"} ELSE {""}), gd \in {"", "m1", "0", "p1"} :
+         scn' = [scn EXCEPT !.cl.b64 = b, !.cl.getdelta = gd]
+    /\ ph' = "run"
+    /\ UNCHANGED m
+
 (***************************************************************************)
 (* Transcoder: ServeHTTP for this scenario (model in module Transcoder).   *)
 (***************************************************************************)
@@ -293,7 +304,7 @@ Done ==
     /\ UNCHANGED vars
 
 Next == \/ ChooseCfg \/ ChooseClient \/ ChooseReqFrames \/ ChooseClientFault \/ ChooseReqHeaders \/ ChooseReject
-        \/ ChooseHandler \/ ChooseBareHttp \/ ChooseHandlerFault \/ ChooseRespHeaders \/ ChooseHostile \/ ChooseChunks
+        \/ ChooseHandler \/ ChooseBareHttp \/ ChooseHandlerFault \/ ChooseRespHeaders \/ ChooseHostile \/ ChooseChunks \/ ChooseGetOpts
         \/ Transcode \/ Done
 
 Spec == Init /\ [][Next]_vars
@@ -312,5 +323,5 @@ OracleHolds == ph = "done" =>
 
 \* the scenario classes a configuration is meant to reach (vacuity guards, checked with -coverage)
 TypeOK == ph \in {"cfg", "client", "reqframes", "clientfault", "reqhdrs", "reject", "handler", "barehttp",
-                  "handlerfault", "resphdrs", "hostile", "chunks", "run", "done"}
+                  "handlerfault", "resphdrs", "hostile", "chunks", "getopts", "run", "done"}
 =============================================================================
